@@ -92,38 +92,48 @@ def _filters(cfg, rec):
     return (np.array(w.rec_lo), np.array(w.rec_hi)) if rec else (np.array(w.dec_lo), np.array(w.dec_hi))
 
 
-def _wave(cfg, rec):
-    """The `wave` argument: a name, or (with cfg['wave_row']) the 4-tuple of separate column / row filters."""
-    if not cfg.get('wave_row'):
+def _wave(cfg, rec, npdt=np.float64, keep=None):
+    """The `wave` argument: a name, the 2-tuple of arrays (cfg['wave_form'] == 'tuple') or (with cfg['wave_row']) the
+    4-tuple of separate column / row filters. Arrays are made in the precision the module is built in and, when `keep`
+    is a list, also handed to the caller (who owns them and may reuse them afterwards)."""
+    if not cfg.get('wave_row') and cfg.get('wave_form') != 'tuple':
         return cfg['wave']
-    wc, wr = pywt.Wavelet(cfg['wave']), pywt.Wavelet(cfg['wave_row'])
-    if rec:
-        return tuple(np.array(a) for a in (wc.rec_lo, wc.rec_hi, wr.rec_lo, wr.rec_hi))
-    return tuple(np.array(a) for a in (wc.dec_lo, wc.dec_hi, wr.dec_lo, wr.dec_hi))
+    wc = pywt.Wavelet(cfg['wave'])
+    if cfg.get('wave_row'):
+        wr = pywt.Wavelet(cfg['wave_row'])
+        src = (wc.rec_lo, wc.rec_hi, wr.rec_lo, wr.rec_hi) if rec else (wc.dec_lo, wc.dec_hi, wr.dec_lo, wr.dec_hi)
+    else:
+        src = (wc.rec_lo, wc.rec_hi) if rec else (wc.dec_lo, wc.dec_hi)
+    arrs = tuple(np.array(a, dtype=npdt) for a in src)
+    if keep is not None:
+        keep.extend(arrs)
+    return arrs
 
 
-def build(cfg, dtype=torch.float64):
+def build(cfg, dtype=torch.float64, keep=None):
     """Returns fn(list of input tensors) -> list of output tensors (all with
-    leading (N,C) axes), built in the given default dtype."""
+    leading (N,C) axes), built in the given default dtype. keep: list that receives the filter arrays handed to the
+    constructor (tuple forms only)."""
+    npdt = np.float32 if dtype == torch.float32 else np.float64
     import pytorch_wavelets as pw
     from pytorch_wavelets.dwt import lowlevel as ll
     from pytorch_wavelets.dwt.transform2d import SWTForward
     k = cfg['kind']
     with dwtu.default_dtype(dtype):
         if k == 'dwt1_fwd':
-            m = pw.DWT1DForward(J=cfg['J'], wave=cfg['wave'], mode=cfg['mode'])
+            m = pw.DWT1DForward(J=cfg['J'], wave=_wave(cfg, False, npdt, keep), mode=cfg['mode'])
             return m, lambda ins: _flat_out(m(ins[0]))
         if k == 'dwt2_fwd':
-            m = pw.DWTForward(J=cfg['J'], wave=_wave(cfg, False), mode=cfg['mode'])
+            m = pw.DWTForward(J=cfg['J'], wave=_wave(cfg, False, npdt, keep), mode=cfg['mode'])
             return m, lambda ins: _flat_out(m(ins[0]))
         if k == 'dwt1_inv':
-            m = pw.DWT1DInverse(wave=cfg['wave'], mode=cfg['mode'])
+            m = pw.DWT1DInverse(wave=_wave(cfg, True, npdt, keep), mode=cfg['mode'])
             return m, lambda ins: [m((ins[0], _with_none(ins[1:], cfg)))]
         if k == 'dwt2_inv':
-            m = pw.DWTInverse(wave=_wave(cfg, True), mode=cfg['mode'])
+            m = pw.DWTInverse(wave=_wave(cfg, True, npdt, keep), mode=cfg['mode'])
             return m, lambda ins: [m((ins[0], _with_none(ins[1:], cfg)))]
         if k == 'swt':
-            m = SWTForward(J=cfg['J'], wave=_wave(cfg, False), mode=cfg['mode'])
+            m = SWTForward(J=cfg['J'], wave=_wave(cfg, False, npdt, keep), mode=cfg['mode'])
             return m, lambda ins: list(m(ins[0]))
         if k == 'dtcwt_fwd':
             m = pw.DTCWTForward(biort=cfg['biort'], qshift=cfg['qshift'], J=cfg['J'], o_dim=cfg['o_dim'],
